@@ -114,6 +114,12 @@ func check(cfg *program.Config, device, policies, policy string) {
 		return
 	}
 
+	// Policy of device has been removed. Nothing is known about its code.
+	if _, err := os.Stat(path.Join(policies, devicePolicy)); err != nil {
+		fmt.Println(device)
+		return
+	}
+
 	// Compare Netspoc code of device policy with Netspoc code of current policy.
 	for _, dir := range []string{"code", "code/ipv6", "code/ipv4"} {
 		for _, ext := range []string{"", ".raw"} {
